@@ -224,9 +224,9 @@ def run(ctx):
     rng = ctx.rng
     q = ctx.tier == "quick"
     cases = [l for l in S.load_corpus("C14")]
-    for _ in range(4000 if q else 100000):
+    for _ in range(4000 if q else 500000):
         cases.append("ser\t" + " ".join(rnd_sval(rng, rng.choice([1, 2, 3, 4]), keys_ok=rng.random() < 0.85).split()))
-    for _ in range(6000 if q else 150000):
+    for _ in range(6000 if q else 750000):
         ti = rng.randrange(len(TYPES))
         v = conforming(rng, TYPES[ti])
         if rng.random() < 0.5:
